@@ -202,6 +202,18 @@ class TxWire(Family):
                 raise Viol('%s.deserialize(serialize(tx)) has different field values' % cls.__name__, want, bm)
             if back.serialize() != enc:
                 raise Viol('%s: deserialised object re-serialises differently' % cls.__name__, enc[:300], back.serialize()[:300])
+        if case['mut']:
+            # serialise . edit . serialise on the same mutable object: the bytes always reflect the current fields
+            m2 = dict(m, locktime=m['locktime'] ^ 1, version=-m['version'] if abs(m['version']) < 2 ** 31 else 7)
+            tx.nLockTime = m2['locktime']
+            tx.nVersion = m2['version']
+            again = tx.serialize()
+            if again != W.encode_tx(m2):
+                raise Viol('mutable tx: serialize() after editing nLockTime/nVersion does not reflect the new field values', W.encode_tx(m2)[:120], again[:120])
+            tx.nLockTime = m['locktime']
+            tx.nVersion = m['version']
+            if tx.serialize() != enc:
+                raise Viol('mutable tx: serialize() after restoring the fields', enc[:120], tx.serialize()[:120])
         cls = CMutableTransaction if case['mut'] else CTransaction
         k = len([p for p in s if p != 'witobj'])
         npre = check_truncations(cls, enc, bnds, what, all_prefixes=(k <= 1))
@@ -354,5 +366,44 @@ class VarInt(Family):
         return 'ok', v >= 0xfd
 
 
+class MaxSize(Family):
+    """a script / witness item of MAX_SIZE-1 and exactly MAX_SIZE (0x02000000) bytes is inside the wire range and must
+    round-trip; the encoding followed by one byte raises the extra-data error"""
+    name = 'max_size_boundary'
+    nontrivial_rule = 'every case'
+
+    def shards(self, tier):
+        return [(0x02000000 - 1, 'script'), (0x02000000, 'script'), (0x02000000, 'witness')]
+
+    def cases(self, shard, tier):
+        yield shard
+
+    def check(self, case):
+        from bitcoin.core import CTransaction
+        from bitcoin.core.serialize import DeserializationExtraDataError
+        size, where = case
+        m = C.default_tx(1, 1)
+        if where == 'script':
+            m['vin'][0]['script'] = bytes(size)
+        else:
+            m['wit'] = [[bytes(size)]]
+        enc = W.encode_tx(m)
+        tx = C.lib_tx(m)
+        if tx.serialize() != enc:
+            raise Viol('serialize() of a transaction with a %d-byte %s' % (size, where), len(enc), len(tx.serialize()))
+        try:
+            back = CTransaction.deserialize(enc)
+        except Exception as e:  # noqa
+            raise Viol('valid encoding with a %d-byte %s (<= MAX_SIZE) was refused' % (size, where), 'object', '%s: %s' % (type(e).__name__, str(e)[:80]))
+        if back.serialize() != enc:
+            raise Viol('round trip of a %d-byte %s' % (size, where), None, None)
+        try:
+            CTransaction.deserialize(enc + b'\x00')
+            raise Viol('extra byte after a large encoding accepted', 'DeserializationExtraDataError', None)
+        except DeserializationExtraDataError:
+            pass
+        return 'ok', True
+
+
 def families(tier):
-    return [TxWire(), HeaderWire(), BlockWire(), VarInt()]
+    return [TxWire(), HeaderWire(), BlockWire(), VarInt(), MaxSize()]
